@@ -14,6 +14,8 @@ def randprofile(rng, minc=2, maxc=7, maxlines=12, maxm=4, wd=False, und=False, f
         withdrawn = []
     elig = [c for c in range(1, nc + 1) if c not in withdrawn]
     undeclared = [c for c in elig if und and rng.random() < 0.2]
+    if und and withdrawn and rng.random() < 0.3:
+        undeclared = sorted(set(undeclared) | {rng.choice(withdrawn)})
     if seats is None:
         seats = rng.randint(1, len(elig))
     seats = min(seats, len(elig))
@@ -156,7 +158,85 @@ def coalitionprofile(rng, maxc=6):
     return dict(nc=nc, seats=seats, lines=lines, tie=tie, withdrawn=[], undeclared=[], eqlines=[])
 
 
-SHAPES = dict(random=randprofile, tie=tieprofile, quota=quotaprofile, chain=chainprofile, coalition=coalitionprofile)
+def priorprofile(rng, maxc=6):
+    "ties of three or more whose members differed at an earlier stage (Scottish prior-stage rule; weak tie-breaks)"
+    nc = rng.randint(4, maxc)
+    base = list(range(1, nc + 1))
+    order = list(base)
+    rng.shuffle(order)
+    low = order[0]
+    rest = order[1:]
+    k2 = min(len(rest) - 1, rng.choice([1, 2, 2, 2, 3]))
+    s2 = rest[:k2]           # start one below, each receives one paper from the lowest candidate
+    s1 = rest[k2:]           # start at the target
+    T = rng.randint(2, 4)
+    lines = []
+    for c in s1:
+        lines.append((T, [c]))
+    for c in s2:
+        lines.append((T - 1, [c]))
+        lines.append((1, [low, c]))
+    if rng.random() < 0.25 and len(s2) > 1:      # an extra paper breaks the symmetry for one of them
+        lines.append((1, [low, s2[0]]))
+    rng.shuffle(lines)
+    tie = list(base)
+    rng.shuffle(tie)
+    seats = rng.choice([1, 1, 2])
+    return dict(nc=nc, seats=seats, lines=lines, tie=tie, withdrawn=[], undeclared=[], eqlines=[])
+
+
+def bulletprofile(rng, maxc=7):
+    "heavy exhaustion: mostly bullet votes, several seats, a tied group of low candidates"
+    nc = rng.randint(5, maxc)
+    seats = rng.randint(3, nc - 1)
+    base = list(range(1, nc + 1))
+    order = list(base)
+    rng.shuffle(order)
+    counts = [rng.choice([65, 40, 30]), rng.choice([21, 12, 9]), rng.choice([8, 5, 3])] + [rng.choice([1, 2, 2])] * (nc - 3)
+    lines = []
+    for c, k in zip(order, counts):
+        lines.append((k, [c]))
+    for _ in range(rng.randint(0, 3)):
+        lines.append((rng.randint(1, 3), rng.sample(base, rng.randint(2, 3))))
+    rng.shuffle(lines)
+    tie = list(base)
+    rng.shuffle(tie)
+    return dict(nc=nc, seats=seats, lines=lines, tie=tie, withdrawn=[], undeclared=[], eqlines=[])
+
+
+def exactprofile(rng, p=2, maxc=5):
+    """
+    A tally lands EXACTLY on a fractional quota n/(s+1) + one unit: n = (s+1)*M with M = 10^p; X has M+2 first
+    preferences (surplus 2 - one unit, transfer value exactly one unit), one X ballot continues to Y who has M.
+    Only reachable with multipliers of the order 10^p, hence the reduced-precision variants of the statutory rules.
+    """
+    M = 10 ** p
+    seats = rng.randint(2, 3)
+    nc = rng.randint(seats + 2, max(seats + 2, maxc))
+    base = list(range(1, nc + 1))
+    order = list(base)
+    rng.shuffle(order)
+    X, Y = order[0], order[1]
+    others = order[2:]
+    n = (seats + 1) * M
+    kx = rng.choice([1, 1, 2])          # X ballots that continue to Y, each worth exactly one unit after the transfer
+    lines = [(M + 2 - kx, [X] + rng.sample(others, rng.randint(0, len(others)))), (kx, [X, Y] + others[:1]),
+             (M, [Y] + others[:rng.randint(0, 1)])]
+    left = n - (M + 2) - M
+    while left > 0:
+        m = min(left, rng.choice([1, 2, 5, M // 3 + 1, M // 2]))
+        c = rng.choice(others)
+        rest = [x for x in base if x != c]
+        rng.shuffle(rest)
+        lines.append((m, [c] + rest[:rng.randint(0, len(rest))]))
+        left -= m
+    rng.shuffle(lines)
+    tie = list(base)
+    rng.shuffle(tie)
+    return dict(nc=nc, seats=seats, lines=lines, tie=tie, withdrawn=[], undeclared=[], eqlines=[])
+
+
+SHAPES = dict(prior=priorprofile, bullet=bulletprofile, exact=exactprofile, random=randprofile, tie=tieprofile, quota=quotaprofile, chain=chainprofile, coalition=coalitionprofile)
 
 # configurations whose numbers fit TLC's 32-bit integers for small electorates
 WIGM_ARITH = [
@@ -184,6 +264,10 @@ WARREN_ARITH = [
     {'arithmetic': 'guarded', 'precision': 3, 'guard': 2},
 ]
 LOWPREC = {'meek-prf': [(4, None, 2), (5, None, 3), (3, None, 2)], 'qpq': [(3, 2, None), (2, 2, None), (3, 3, None)]}
+# reduced-precision variants of the other statutory rules (None = the statutory constants themselves)
+LOWPREC_OPT = {'wigm-prf': [None, None, (2, None, None), (1, None, None)], 'wigm-prf-batch': [None, None, (2, None, None), (1, None, None)],
+               'cfer': [None, None, (2, None, None), (1, None, None)], 'cfer-batch': [None, None, (2, None, None), (1, None, None)],
+               'scotland': [None, None, (2, None, None)], 'mpls': [None, None, (2, None, None)]}
 
 
 def configs(rule, rng=None, all_=False):
@@ -196,6 +280,8 @@ def configs(rule, rng=None, all_=False):
         L = [(dict(rule=rule, **a), None) for a in WARREN_ARITH]
     elif rule in LOWPREC:
         L = [(dict(rule=rule), lp) for lp in LOWPREC[rule]]
+    elif rule in LOWPREC_OPT:
+        L = [(dict(rule=rule), lp) for lp in LOWPREC_OPT[rule]]
     else:
         L = [(dict(rule=rule), None)]
     if all_ or rng is None:
